@@ -47,9 +47,8 @@ func (w *watcher) install(cn int, fc *fakenet.Conn) {
 	processed := 0
 	fc.OnWrite(func(int, []byte) error {
 		pmu.Lock()
-		frames, _ := fc.Frames()
-		todo := frames[processed:]
-		processed = len(frames)
+		todo := fc.FramesFrom(processed)
+		processed += len(todo)
 		pmu.Unlock()
 		for _, q := range todo {
 			name := peer.QName(q)
@@ -153,7 +152,7 @@ func genConnCase(t *rapid.T) ConnCase {
 	c := ConnCase{Limit: rapid.SampledFrom([]int{1, 2, 3, 8, 64}).Draw(t, "limit"), Datagram: rapid.Bool().Draw(t, "datagram")}
 	n := rapid.IntRange(1, 60).Draw(t, "nops")
 	for i := 0; i < n; i++ {
-		k := rapid.SampledFrom([]string{"reserve", "reserve", "reserve", "exchange", "exchange", "exchange", "withdraw", "reply", "reply", "cancel", "probe"}).Draw(t, "k")
+		k := rapid.SampledFrom([]string{"reserve", "reserve", "reserve", "exchange", "exchange", "exchange", "withdraw", "reply", "reply", "cancel", "probe", "deadexchange"}).Draw(t, "k")
 		c.Ops = append(c.Ops, Op{K: k, I: rapid.IntRange(0, 63).Draw(t, "i")})
 	}
 	return c
@@ -221,6 +220,25 @@ func runConnCase(c ConnCase, ctx *hx.Ctx) *hx.Failure {
 				i := op.I % len(held)
 				held[i].WithdrawReserved()
 				held = append(held[:i], held[i+1:]...)
+				sawRelease = true
+			}
+		case "deadexchange": // a held reservation is used with a context that is already over
+			if len(held) > 0 {
+				i := op.I % len(held)
+				rx := held[i]
+				held = append(held[:i], held[i+1:]...)
+				cx, cancel := context.WithCancel(context.Background())
+				cancel()
+				serial++
+				done := make(chan error, 1)
+				dname := fmt.Sprintf("dead%d.c09.test.", serial)
+				go func(q []byte) { _, err := rx.ExchangeReserved(cx, q); done <- err }(peer.Query(uint16(serial), dname, 16))
+				select {
+				case <-done:
+				case <-time.After(10 * time.Second):
+					return hx.Failf("C09/harness", "exchange with a cancelled context did not return")
+				}
+				w.ended(dname) // the call is over: whether or not its query reached the wire, it occupies nothing
 				sawRelease = true
 			}
 		case "exchange":
@@ -330,6 +348,85 @@ func TestPropConnAccounting(t *testing.T) { hx.Check(t, 3000, genConnCase, runCo
 
 // ---------------------------------------------------------------- B/C. PipelineTransport: dialing phase and established connection
 
+// orderGate lets the test decide in which order concurrent ReserveNewQuery calls on the
+// freshly dialled connection run: the latest arrival goes first.
+type orderGate struct {
+	mu      sync.Mutex
+	active  bool
+	waiting []chan struct{}
+	lastAt  time.Time
+	fin     chan struct{}
+}
+
+func (g *orderGate) arrive() {
+	g.mu.Lock()
+	if !g.active {
+		g.mu.Unlock()
+		return
+	}
+	ch := make(chan struct{})
+	g.waiting = append(g.waiting, ch)
+	g.lastAt = time.Now()
+	g.mu.Unlock()
+	<-ch
+}
+
+func (g *orderGate) finished() {
+	g.mu.Lock()
+	f := g.fin
+	g.mu.Unlock()
+	if f != nil {
+		f <- struct{}{}
+	}
+}
+
+// drain releases the arrivals newest-first, one at a time, until nothing has arrived for quiet.
+func (g *orderGate) drain(expect int, quiet time.Duration) (released int) {
+	g.mu.Lock()
+	g.fin = make(chan struct{}, 1024)
+	g.lastAt = time.Now()
+	g.mu.Unlock()
+	for {
+		g.mu.Lock()
+		n := len(g.waiting)
+		idle := time.Since(g.lastAt)
+		if n == 0 && idle > quiet {
+			g.active = false
+			g.mu.Unlock()
+			return released
+		}
+		// before the first release: give every expected caller the chance to arrive
+		if (released == 0 && n < expect && idle < quiet) || n == 0 {
+			g.mu.Unlock()
+			time.Sleep(200 * time.Microsecond)
+			continue
+		}
+		ch := g.waiting[n-1]
+		g.waiting = g.waiting[:n-1]
+		g.lastAt = time.Now()
+		g.mu.Unlock()
+		close(ch)
+		select {
+		case <-g.fin:
+		case <-time.After(5 * time.Second):
+		}
+		released++
+	}
+}
+
+type gatedConn struct {
+	inner transport.DnsConn
+	g     *orderGate
+}
+
+func (c *gatedConn) ReserveNewQuery() (transport.ReservedExchanger, bool) {
+	c.g.arrive()
+	rx, closed := c.inner.ReserveNewQuery()
+	c.g.finished()
+	return rx, closed
+}
+func (c *gatedConn) Close() error { return c.inner.Close() }
+
 type BurstCase struct {
 	Limit     int    `json:"limit"`     // connection limit = queue limit while dialing
 	N         int    `json:"n"`         // burst size
@@ -342,7 +439,7 @@ type BurstCase struct {
 
 func genBurst(t *rapid.T) BurstCase {
 	c := BurstCase{Limit: rapid.SampledFrom([]int{1, 2, 3, 8, 64}).Draw(t, "limit"), Datagram: rapid.Bool().Draw(t, "datagram")}
-	c.Phase = rapid.SampledFrom([]string{"dialing", "dialing", "established"}).Draw(t, "phase")
+	c.Phase = rapid.SampledFrom([]string{"dialing", "dialing", "established", "dialing-late"}).Draw(t, "phase")
 	switch rapid.IntRange(0, 3).Draw(t, "nk") {
 	case 0:
 		c.N = c.Limit
@@ -355,6 +452,11 @@ func genBurst(t *rapid.T) BurstCase {
 		c.SecondOK = true
 	}
 	c.Dial = "ok"
+	if c.Phase == "dialing-late" {
+		// exactly a full queue of early callers plus one late caller that arrives while they re-reserve
+		c.N = c.Limit
+		c.SecondOK = true
+	}
 	if c.Phase == "dialing" {
 		if rapid.IntRange(0, 4).Draw(t, "dialFail") == 0 {
 			c.Dial = "fail"
@@ -374,8 +476,12 @@ func runBurst(c BurstCase, ctx *hx.Ctx) *hx.Failure {
 	var gateOnce sync.Once
 	openGate := func() { gateOnce.Do(func() { close(gate) }) }
 	defer openGate()
-	if c.Phase == "dialing" {
+	og := &orderGate{}
+	if c.Phase == "dialing" || c.Phase == "dialing-late" {
 		env.DialGate = gate
+	}
+	if c.Phase == "dialing-late" {
+		og.active = true
 	}
 	env.OnDial = func(cn int, fc *fakenet.Conn) error {
 		if c.Dial == "fail" && c.Phase == "dialing" {
@@ -387,7 +493,9 @@ func runBurst(c BurstCase, ctx *hx.Ctx) *hx.Failure {
 		w.install(cn, fc)
 		return nil
 	}
-	eng, err := tx.NewEngine("pipe", env, tx.Opt{MaxCQ: c.Limit, LazyQueue: c.Limit})
+	eng, err := tx.NewEngine("pipe", env, tx.Opt{MaxCQ: c.Limit, LazyQueue: c.Limit, WrapDnsConn: func(dc transport.DnsConn) transport.DnsConn {
+		return &gatedConn{inner: dc, g: og}
+	}})
 	if err != nil {
 		return hx.Failf("C09/harness", "%v", err)
 	}
@@ -425,6 +533,23 @@ func runBurst(c BurstCase, ctx *hx.Ctx) *hx.Failure {
 		all[i] = i
 	}
 	live := all
+	var late *call
+	if c.Phase == "dialing-late" {
+		// a full queue of early callers is parked on the dialing connection
+		deadline := time.Now().Add(5 * time.Second)
+		for time.Now().Before(deadline) && len(quiesce.With("lazyDnsConnEarlyReservedExchanger).ExchangeReserved")) < c.N {
+			time.Sleep(200 * time.Microsecond)
+		}
+		openGate()
+		// the early callers now try to re-reserve on the real connection and are held at the order gate;
+		// a late caller arrives meanwhile. If it can overtake them it takes one of their slots.
+		late = &call{name: "late.c09.test.", done: make(chan struct{})}
+		lcx, lcancel := context.WithCancel(context.Background())
+		late.cancel = lcancel
+		time.Sleep(2 * time.Millisecond)
+		go burstCall(lcx, eng, late, 9999)
+		og.drain(c.N+1, 30*time.Millisecond)
+	}
 	if c.Phase == "dialing" {
 		// wait until every caller that fits is queued on the dialing connection (parked in the early exchanger),
 		// or - for n > limit - further dials were started
@@ -489,6 +614,17 @@ func runBurst(c BurstCase, ctx *hx.Ctx) *hx.Failure {
 	for _, i := range live {
 		w.reply(calls[i].name)
 	}
+	if late != nil {
+		if w.waitOnWire(late.name, 5*time.Second) {
+			w.reply(late.name)
+		}
+		select {
+		case <-late.done:
+		case <-time.After(5 * time.Second):
+			late.cancel()
+			<-late.done
+		}
+	}
 	if !allReturned(10*time.Second, live) {
 		for _, cl := range calls {
 			cl.cancel()
@@ -501,7 +637,7 @@ func runBurst(c BurstCase, ctx *hx.Ctx) *hx.Failure {
 		if calls[i].err != nil {
 			if c.N <= c.Limit {
 				sig := "C09/refused-below-limit"
-				if c.Phase == "dialing" {
+				if c.Phase == "dialing" || c.Phase == "dialing-late" {
 					sig = "C09/early-query-refused-after-dial"
 				}
 				return hx.Failf(sig, "limit %d (queue limit while dialing %d), phase %s: burst of %d queries (%d cancelled before the dial finished): query %d failed with: %v", c.Limit, c.Limit, c.Phase, c.N, c.CancelK, i, calls[i].err)
@@ -517,7 +653,7 @@ func runBurst(c BurstCase, ctx *hx.Ctx) *hx.Failure {
 		}
 	}
 	// capacity is back: the same burst again must need no further connection when n <= limit
-	if c.N <= c.Limit {
+	if c.N <= c.Limit && late == nil {
 		before := env.DialsStarted()
 		calls2 := make([]*call, c.N)
 		for i := range calls2 {
